@@ -1,5 +1,5 @@
 /*VERIF
-{ "tu": "src/semaphore.c", "enforce": "_dispatch_group_notify", "props": ["C07","C05","C17"],
+{ "tu": "src/semaphore.c", "enforce": "_dispatch_group_notify", "props": ["C07","C05","C17","C19"],
   "nondet_volatile": true, "timeout": 180,
   "assumes": ["rely: dg_notify_tail holds NULL or a valid continuation (MPSC discipline)"],
   "stub_note": "_dispatch_group_wake: logged call; retain: logged" }
